@@ -374,3 +374,12 @@ func verifLemmaSchemaOrArrayFixedPoint(v SchemaOrArray) (first, second []byte) {
 	}
 	return first, second
 }
+
+// the ordering of schema properties (C06): a strict total order on items with distinct names
+func verifLemmaLessTotal(items OrderSchemaItems, i, j int) (ij, ji bool) {
+	return items.Less(i, j), items.Less(j, i)
+}
+
+func verifLemmaLessTransitive(items OrderSchemaItems, i, j, k int) (ij, jk, ik bool) {
+	return items.Less(i, j), items.Less(j, k), items.Less(i, k)
+}
